@@ -190,6 +190,10 @@ type world struct {
 
 	settleOK  bool
 	settleLog []settleCall
+	// settleHook (optional) is called at the start of settlement call number n (from 0), outside
+	// the lock; it may block, and decides whether that settlement succeeds
+	settleHook func(n int) bool
+	settleN    int
 	nonce     int64
 }
 
@@ -267,6 +271,13 @@ func newWorld(cfg worldCfg) *world {
 		w.pay.Settle = func(account store.Account, amount *big.Int, newBalance *big.Int) (string, error) {
 			w.mu.Lock()
 			ok := w.settleOK
+			n, hook := w.settleN, w.settleHook
+			w.settleN++
+			w.mu.Unlock()
+			if hook != nil {
+				ok = hook(n)
+			}
+			w.mu.Lock()
 			w.settleLog = append(w.settleLog, settleCall{string(account), amount.String(), newBalance.String(), ok})
 			w.mu.Unlock()
 			if !ok {
